@@ -35,7 +35,23 @@ int main(void)
     ARG.a = &ULT0; ARG.b = &LOCK; ABTI_ythread_callback_suspend_unlock(&ARG);
 #elif KIND == 2
     ARG.a = &ULT0; ARG.b = &ULT1; ABTI_ythread_callback_suspend_join(&ARG);
+#elif KIND >= 3
+    /* yield-type callbacks: the unit goes straight back to a pool -- the one it is associated with AFTER a pending
+     * migration has been served (sp_push asserts that), and the pre-incremented counter of ABT_thread_yield_to is undone */
+    ULT0.thread.state.val = ABT_THREAD_STATE_READY;
+#if KIND == 3
+    ABTI_ythread_callback_yield_user_yield(&ULT0);
+#elif KIND == 4
+    PL0.num_blocked.val = 1; ABTI_ythread_callback_thread_yield_to(&ULT0);
+#elif KIND == 5
+    ARG.a = &ULT0; ARG.b = &ULT1; ULT1.thread.p_pool = &PL1; PL1.num_blocked.val = 1; ABTI_ythread_callback_resume_yield_to(&ARG);
 #endif
+    VR_ASSERT(sp_in[0], "the yielding unit is back in a pool");
+    VR_ASSERT(!mig || ULT0.thread.p_pool == &PL2, "a pending migration is served at the yield: the unit's next scheduling goes through the requested pool");
+    VR_ASSERT(PL0.num_blocked.val == 0 && PL1.num_blocked.val == 0 && PL2.num_blocked.val == 0 && !negative_seen, "blocked counters balanced after the yield");
+    if (mig) VR_WITNESS("yielded with a migration pending"); else VR_WITNESS("yielded");
+#endif
+#if KIND <= 2
     VR_ASSERT(ULT0.thread.state.val == ABT_THREAD_STATE_BLOCKED, "the unit is BLOCKED");
     ABTI_pool *assoc = ULT0.thread.p_pool;
     VR_ASSERT(!mig || assoc == &PL2, "a pending migration is served at the blocking point: the unit is now associated with the requested pool");
@@ -48,5 +64,6 @@ int main(void)
     VR_ASSERT(PL0.num_blocked.val == 0 && PL1.num_blocked.val == 0 && PL2.num_blocked.val == 0, "every pool's blocked counter is zero once no unit is blocked");
     VR_ASSERT(!negative_seen, "a blocked counter is never negative");
     if (mig) VR_WITNESS("blocked with a migration pending, then resumed"); else VR_WITNESS("blocked and resumed");
+#endif
     return 0;
 }
